@@ -23,6 +23,7 @@ import (
 	"sort"
 	"strings"
 	"testing"
+	"time"
 
 	"github.com/apmckinlay/gsuneido/core"
 	"github.com/apmckinlay/gsuneido/db19/index"
@@ -60,6 +61,7 @@ type dpTran struct {
 	startView []map[uint64]dpRow     // shadow: the committed rows when it started
 	first map[string]string          // first result of every scan (repeatable reads)
 	wrote []bool
+	stale [][]dpRow // per table: row versions this transaction itself replaced or deleted
 }
 
 type dpHist struct {
@@ -137,6 +139,10 @@ func dpClass(msg string) string {
 		return "!dup"
 	case strings.Contains(msg, "too many writes"):
 		return "!toomany"
+	case strings.Contains(msg, "on same record"):
+		// a write through the offset of a row version this transaction has already replaced or
+		// deleted ("update & update / update & delete / delete & update on same record")
+		return "!norow"
 	case strings.Contains(msg, "transaction aborted"), strings.Contains(msg, "transaction already ended"):
 		return "aborted"
 	}
@@ -186,6 +192,7 @@ func (h *dpHist) begin(update bool) {
 		t.startView = append(t.startView, lv2(lv))
 	}
 	t.wrote = make([]bool, len(h.tables))
+	t.stale = make([][]dpRow, len(h.tables))
 	h.trans = append(h.trans, t)
 	h.q(fmt.Sprintf("begin %d", t.id), "ok")
 	if update {
@@ -220,6 +227,16 @@ func (h *dpHist) pickRow(t *dpTran, tn int) (dpRow, bool) {
 	return t.view[tn][offs[h.r.Intn(len(offs))]], true
 }
 
+// addStale remembers a replaced/deleted row version for later writes through its stale offset.
+// Only rows of the snapshot: a row the transaction itself added and removed again leaves no
+// entry in its buffers (add+delete cancel), and the implementation does not detect a write
+// through such an offset at all (noted in the report, not judged by this check).
+func (t *dpTran) addStale(tn int, row dpRow) {
+	if _, ok := t.startView[tn][row.off]; ok {
+		t.stale[tn] = append(t.stale[tn], row)
+	}
+}
+
 // readRow reads the row through the transaction (registering the read with the conflict
 // checker, as every caller of Delete/Update must) and returns false if that aborted it
 func (h *dpHist) readRow(t *dpTran, tn int, row dpRow) bool {
@@ -252,6 +269,43 @@ func (h *dpHist) tranOp(t *dpTran) {
 	ut := t.ut
 	ts := ut.getSchema(table)
 	ncols := len(ts.Columns)
+	if len(t.stale[tn]) > 0 && h.r.Intn(6) == 0 {
+		// a write through a STALE offset (an old record object / cursor): the row version was
+		// already replaced or deleted by this same transaction.  The implementation must refuse
+		// it and must not leave a half applied change behind that could still be committed.
+		row := t.stale[tn][h.r.Intn(len(t.stale[tn]))]
+		if _, still := t.view[tn][row.off]; still {
+			return
+		}
+		var msg string
+		if h.r.Intn(2) == 0 {
+			rec := dpRec(row.k, row.a, row.b+"s").Truncate(ncols) // same key, other data
+			keys := h.keysOf(ts, rec)
+			msg = lib.Catch(func() { ut.Update(nil, table, row.off, rec) })
+			cls := dpClass(msg)
+			h.tr.Count("stale-upd:" + strings.SplitN(cls, ":", 2)[0])
+			if cls == "ok" {
+				h.fail("stale-write-accepted", fmt.Sprintf("t%d Update through the stale offset %d (row version it had already replaced/deleted) succeeded", t.id, row.off))
+				return
+			}
+			if cls != "aborted" {
+				h.q(fmt.Sprintf("upd %d %d %d %d %d %s", t.id, tn, row.off, 0, rec.Len(), lib.Xs(keys)), cls)
+			}
+		} else {
+			msg = lib.Catch(func() { ut.Delete(nil, table, row.off) })
+			cls := dpClass(msg)
+			h.tr.Count("stale-del:" + strings.SplitN(cls, ":", 2)[0])
+			if cls == "ok" {
+				h.fail("stale-write-accepted", fmt.Sprintf("t%d Delete through the stale offset %d succeeded", t.id, row.off))
+				return
+			}
+			if cls != "aborted" {
+				h.q(fmt.Sprintf("del %d %d %d", t.id, tn, row.off), cls)
+			}
+		}
+		h.sweep()
+		return
+	}
 	kind := h.r.Intn(10)
 	switch {
 	case kind < 5: // output
@@ -292,6 +346,7 @@ func (h *dpHist) tranOp(t *dpTran) {
 		if cls == "ok" {
 			delete(t.view[tn], row.off)
 			t.wrote[tn] = true
+			t.addStale(tn, row)
 		}
 		h.q(fmt.Sprintf("del %d %d %d", t.id, tn, row.off), cls)
 	default: // update (sometimes changing the key)
@@ -325,6 +380,7 @@ func (h *dpHist) tranOp(t *dpTran) {
 			delete(t.view[tn], row.off)
 			t.view[tn][newoff] = dpRow{newoff, rec.Len(), k, a, b}
 			t.wrote[tn] = true
+			t.addStale(tn, row)
 		}
 		h.q(fmt.Sprintf("upd %d %d %d %d %d %s", t.id, tn, row.off, newoff, rec.Len(), lib.Xs(keys)), cls)
 	}
@@ -788,6 +844,15 @@ func (h *dpHist) build(tn int, midMerge bool) {
 		emitted = true
 		h.sweep() // AddExclusive aborts the transactions that wrote to the table
 	}
+	if h.r.Intn(2) == 0 {
+		// a moment with no active update transaction
+		for _, t := range slices.Clone(h.trans) {
+			if t.ut != nil {
+				h.finish(t, h.r.Intn(2) == 0)
+			}
+		}
+		h.tr.Count("build:no-active-update-tran")
+	}
 	useEnsure := h.r.Intn(2) == 0
 	hook := &dpHook{Check: h.ck, added: func(string) { emitBuildc() },
 		between: func() {
@@ -796,7 +861,10 @@ func (h *dpHist) build(tn int, midMerge bool) {
 				h.merge(tn, 1+h.r.Intn(h.pending[tn]), false)
 				h.tr.Count("build:merge-between-build-and-apply")
 			}
-			if h.r.Intn(3) == 0 {
+			if h.r.Intn(2) == 0 {
+				// transactions starting, writing (also to the table being built) and
+				// committing while the index is being built
+				h.activity()
 				h.activity()
 			}
 		}}
@@ -943,7 +1011,14 @@ func (h *dpHist) runBig() {
 	if tables != nil {
 		h.fail("write-limit-commit", "a transaction that exceeded the write limit committed")
 	}
-	h.q(fmt.Sprintf("commit %d", t.id), "!aborted")
+	if tables != nil {
+		if len(tables) > 0 {
+			t.ut.commit()
+		}
+		h.q(fmt.Sprintf("commit %d", t.id), "ok")
+	} else {
+		h.q(fmt.Sprintf("commit %d", t.id), "!aborted")
+	}
 	h.trans = nil
 	h.observe()
 }
@@ -988,4 +1063,98 @@ func TestVerifC16(t *testing.T) {
 // C02: many long-lived read and update transactions re-read after every step
 func TestVerifC02(t *testing.T) {
 	dpMain(t, dpCfg{name: "c02", steps: 40, wMerge: 3, wPersist: 2, wBuild: 0, wTranOp: 6, wBegin: 3, wRead: 4, inCompute: 50})
+}
+
+//-------------------------------------------------------------------
+// C03, the real asynchronous pipeline (StartConcur: CheckCo + merger goroutines)
+
+// TestVerifC03Async: "changes become visible to later transactions … if its completion reports
+// success".  With the real checker goroutine the reply to Complete() and the publication of the
+// new state are two steps; a read transaction takes db.GetState() directly.  The harness holds
+// the state mutex (as a concurrent merge/persist UpdateState would) while Complete() runs in
+// another goroutine: a correct implementation cannot report success before it has published the
+// state, so Complete() must still be blocked when the wait ends.  The wall clock only limits the
+// detection power (a reply that is later than the wait goes unnoticed); it never produces a
+// failure on a correct implementation.
+func TestVerifC03Async(t *testing.T) {
+	MakeSuTran = func(ut *UpdateTran) *core.SuTran { return core.NewSuTran(nil, true) }
+	tr := lib.Open()
+	defer tr.Close()
+	r := lib.Rand()
+	n := lib.N(40)
+	db := CreateDb(stor.HeapStor(64 * 1024))
+	StartConcur(db, time.Hour)
+	defer db.Close()
+	db.Create(&schema.Schema{Table: "t", Columns: []string{"k", "a", "b"},
+		Indexes: []schema.Index{{Mode: 'k', Columns: []string{"k"}}, {Mode: 'i', Columns: []string{"a"}}}})
+	visible := func(key string) bool {
+		rt := db.NewReadTran()
+		ts := rt.GetSchema("t")
+		return rt.Lookup("t", 0, ts.Indexes[0].Ixspec.Key(dpRec(key, "", ""))) != nil
+	}
+	for i := 0; i < n; i++ {
+		key := fmt.Sprintf("k%04d", i)
+		ut := db.NewUpdateTran()
+		if ut == nil {
+			continue
+		}
+		if msg := lib.Catch(func() { ut.Output(nil, "t", dpRec(key, fmt.Sprint("a", r.Intn(3)), "")) }); msg != "" {
+			tr.Fail("async-output-panic", msg)
+			break
+		}
+		hold := r.Intn(4) != 0
+		before := db.GetState()
+		nrowsBefore := db.NewReadTran().GetInfo("t").Nrows
+		done := make(chan string, 1)
+		if hold {
+			db.state.mutex.Lock()
+		}
+		go func() { done <- ut.Complete() }()
+		res, early := "", false
+		if hold {
+			select {
+			case res = <-done:
+				early = true // replied while the state could not have been published
+			case <-time.After(40 * time.Millisecond):
+			}
+			if early && res == "" {
+				if db.GetState() == before && !visible(key) {
+					tr.Fail("commit-acked-before-visible", fmt.Sprintf("commit %d: Complete() reported success while the state mutex was held (no UpdateState possible): a read transaction started after the reply does not see row %q (Nrows still %d)",
+						i, key, nrowsBefore))
+				}
+			}
+			db.state.mutex.Unlock()
+			if !early {
+				res = <-done
+			}
+		} else {
+			res = <-done
+		}
+		tr.Count(fmt.Sprintf("async commit hold=%v early=%v ok=%v", hold, early, res == ""))
+		if res == "" {
+			// truthfulness after the reply, without any help from the scheduler
+			if !visible(key) {
+				tr.Fail("commit-acked-before-visible", fmt.Sprintf("commit %d: Complete() returned success but a read transaction started afterwards does not see row %q", i, key))
+			}
+			if got := db.NewReadTran().GetInfo("t").Nrows; got != nrowsBefore+1 {
+				tr.Fail("info-nrows", fmt.Sprintf("commit %d: Nrows %d after a successful commit of one row, was %d", i, got, nrowsBefore))
+			}
+		} else if visible(key) {
+			tr.Fail("failed-commit-visible", fmt.Sprintf("commit %d: Complete() = %q but row %q is visible", i, res, key))
+		}
+		// an aborted transaction leaves nothing
+		if r.Intn(4) == 0 {
+			ut2 := db.NewUpdateTran()
+			k2 := key + "x"
+			lib.Catch(func() { ut2.Output(nil, "t", dpRec(k2, "a", "")) })
+			ut2.Abort()
+			if res := ut2.Complete(); res == "" {
+				tr.Fail("commit-after-abort", "Complete() after Abort() reported success")
+			}
+			if visible(k2) {
+				tr.Fail("failed-commit-visible", fmt.Sprintf("row %q of an aborted transaction is visible", k2))
+			}
+			tr.Count("async abort")
+		}
+	}
 }
